@@ -140,3 +140,34 @@ Inductive spells : op -> str -> Prop :=
 | sp_map (items : list (op * str)) : items <> [] ->
     Forall (fun it => spells_simple (fst it) (snd it)) items ->
     spells (Map (map fst items)) (kw_map ++ 58 :: 123 :: pipe_text (map snd items) ++ [125]).
+
+(* ---- the operations that take a regular expression -------------------------------------
+   Their arguments are RAW text (no escape decoding); what can be written is limited by the
+   lexical rules of the argument, stated here as boolean predicates on the text. *)
+Definition arg_special (c : N) : bool := (N.eqb c 58 || N.eqb c 124 || N.eqb c 123 || N.eqb c 125 || N.eqb c 92)%bool.
+(* raw text made of units: a backslash with the character after it, or one character allowed by okc *)
+Fixpoint units (okc : N -> bool) (s : str) : bool :=
+  match s with
+  | [] => true
+  | c :: r => if N.eqb c 92 then match r with [] => false | _ :: r' => units okc r' end
+              else (okc c && units okc r)%bool
+  end.
+(* a regex argument: no bare : | { } *)
+Definition regex_units : str -> bool := units (fun c => negb (arg_special c)).
+(* a part of s/pattern/replacement/flags: no bare / *)
+Definition sed_units : str -> bool := units (fun c => negb (N.eqb c 47)).
+Definition is_letter (c : N) : bool := ((N.leb 97 c && N.leb c 122) || (N.leb 65 c && N.leb c 90))%bool.
+
+Definition kw_replace : str := [114; 101; 112; 108; 97; 99; 101].
+Definition kw_filter : str := [102; 105; 108; 116; 101; 114].
+Definition kw_filter_not : str := [102; 105; 108; 116; 101; 114; 95; 110; 111; 116].
+Definition kw_regex_extract : str := [114; 101; 103; 101; 120; 95; 101; 120; 116; 114; 97; 99; 116].
+
+Inductive spells_regex : op -> str -> Prop :=
+| sp_replace p r f : p <> [] -> sed_units p = true -> sed_units r = true -> forallb is_letter f = true ->
+    spells_regex (Replace p r f) (kw_replace ++ 58 :: 115 :: 47 :: p ++ 47 :: r ++ 47 :: f)
+| sp_filter p : regex_units p = true -> spells_regex (Filter p) (kw_filter ++ 58 :: p)
+| sp_filter_not p : regex_units p = true -> spells_regex (FilterNot p) (kw_filter_not ++ 58 :: p)
+| sp_extract p : regex_units p = true -> spells_regex (RegexExtract p None) (kw_regex_extract ++ 58 :: p)
+| sp_extract_group p g : regex_units p = true -> N.leb g usize_max = true ->
+    spells_regex (RegexExtract p (Some g)) (kw_regex_extract ++ 58 :: p ++ 58 :: print_N g).
